@@ -687,6 +687,11 @@ fn probe_env_retime(model: &mut Model, shape: u8, ep0: u16, run: u32, ep1: u16, 
 fn probe_gate(model: &mut Model, ym: bool, mode: usize, r7: u8, vols: [u8; 3], rep: Option<&mut Report>) -> Option<Disagreement> {
     let tabs = new_model(model, ym, mode);
     let mut ay = mk(ym, mode, 44100);
+    if (r7 as usize + vols[1] as usize) % 2 == 1 {
+        // as the emulator's chip is configured: the DC filter works on the finished samples, never on what a
+        // channel contributes to the mix
+        ay.enable_dc_filter();
+    }
     for (a, v) in [(0u8, 2u8), (2, 3), (4, 5), (6, 1), (11, 2), (13, 14), (7, r7), (8, vols[0]), (9, vols[1]), (10, vols[2])] {
         ay.write_register(a, v);
     }
